@@ -126,6 +126,15 @@ claim("C09",
       "must-pass-through rules on the clang CFG, constant evaluation of the root-class request, who-may-call",
       "DESIGN.md section 3, C09")
 
+claim("C16",
+      "Thin: the special-character mangling table is injective and uniquely decodable (so distinct printable identifiers "
+      "get distinct C names before truncation/hashing), and the identifier-character tables are initialised and indexed "
+      "within bounds. Collision freedom under identifier-length limits and hashing, and validity of the emitted C under "
+      "every option combination, are not decided.",
+      "Trusted: clang 14 constant evaluation of the table initialiser; the decodability argument in the rule text.",
+      "table lint (injectivity / unique decodability) + index-origin range-proof rule",
+      "DESIGN.md section 3, C16")
+
 PENDING_REASON = "check designed in DESIGN.md but not yet built in this tree; not claimed until it runs"
 
 
